@@ -142,6 +142,14 @@ template <class DT> static void fillFields(Ans& a, const DT& o) {
   a.n = 7;
 }
 
+// Leaves a chosen byte pattern in the stack area that the next call will use: a result object that the code under test
+// returns without having written it is then made of these bytes. 0x01 and 0x05 make valid-looking dates and times
+// (a pattern of zeros would look like an error value and hide the omission by luck).
+__attribute__((noinline)) static void scribbleStack(uint8_t b) {
+  volatile uint8_t buf[12288];
+  for (size_t i = 0; i < sizeof buf; i++) buf[i] = b;
+}
+
 static Ans ask(const TimeZone& tz, const Query& q) {
   Ans a;
   if (q.kind == "utc" || q.kind == "delta") {
@@ -634,7 +642,20 @@ void TzDevice::doQuery(int c, const Query& q, int opIndex, Verdict& v, Coverage&
   if (opts.armC08 && decoyFirst) decoy(d, q);
 
   // the real query
+  if (opts.armC09) scribbleStack(0x01);
   Ans r = ask(cl.tz, q);
+  if (opts.armC09) {
+    // ... and once more over other stack residue: a value the code returns without having written it (undefined
+    // behaviour no sanitizer here reports) differs between the two, and so does an error that is only an error by luck
+    scribbleStack(0x05);
+    Ans again = ask(cl.tz, q);
+    cov.count("c09.stack_residue_checks");
+    if (!equalAns(r, again)) {
+      v.fail("c09-unstable-answer", fmt("client %d (%s %s): the same %s question asked twice in a row, over different stack residue, "
+          "is answered %s and then %s (a result the code never wrote, or an error that does not persist)", c, kindName(d.kind),
+          zoneName(d.kind, d.zi), q.kind.c_str(), r.show().c_str(), again.show().c_str()), opIndex);
+    }
+  }
 
   if (sh && fills) {
     sh->used = true; sh->zi = d.zi; sh->year = year;
@@ -646,7 +667,10 @@ void TzDevice::doQuery(int c, const Query& q, int opIndex, Verdict& v, Coverage&
   if (opts.armC08) {
     uint8_t p1 = (uint8_t)(poison ^ 0x3c), p2 = (uint8_t)~p1;
     decoy(d, q);
-    Ans f1 = fresh(d, q, p1), f2 = fresh(d, q, p2);
+    scribbleStack(p1);
+    Ans f1 = fresh(d, q, p1);
+    scribbleStack(p2);
+    Ans f2 = fresh(d, q, p2);
     freshLog.push_back(std::make_pair(opIndex, answerHash(f1.show())));
     if (isZone(d.kind) && equalAns(f1, f2)) {
       // a fresh zone must also agree with what a fresh zone answered to the same question earlier in this run
